@@ -16,6 +16,10 @@ import (
 // (nothing is written under the repository) and runs test function name. It reports whether the test FAILED
 // (= the counterexample reproduces on the real code) and the output.
 func runOverlayTest(pkgRel, testName, src string) (failed bool, out string, err error) {
+	return runOverlayTestOpt(pkgRel, testName, src, strings.Contains(src, "// gvc:race"))
+}
+
+func runOverlayTestOpt(pkgRel, testName, src string, race bool) (failed bool, out string, err error) {
 	tmp, err := os.MkdirTemp("", "gvc-replay-")
 	if err != nil {
 		return false, "", err
@@ -35,7 +39,12 @@ func runOverlayTest(pkgRel, testName, src string) (failed bool, out string, err 
 	if pkgRel == "" || pkgRel == "." {
 		pkgArg = "."
 	}
-	cmd := exec.CommandContext(ctx, "go", "test", "-overlay", ovFile, "-vet=off", "-count=1", "-timeout", "60s", "-run", "^"+testName+"$", pkgArg)
+	args := []string{"test", "-overlay", ovFile, "-vet=off", "-count=1", "-timeout", "120s", "-run", "^" + testName + "$"}
+	if race {
+		args = append(args, "-race")
+	}
+	args = append(args, pkgArg)
+	cmd := exec.CommandContext(ctx, "go", args...)
 	cmd.Dir = RepoDir
 	cmd.Env = append(os.Environ(), "GOFLAGS=-mod=mod", "GOPROXY=off", "GOSUMDB=off", "GOTOOLCHAIN=local", "GOCACHE="+goCache())
 	var buf bytes.Buffer
@@ -48,7 +57,7 @@ func runOverlayTest(pkgRel, testName, src string) (failed bool, out string, err 
 	if runErr == nil {
 		return false, out, nil
 	}
-	if strings.Contains(out, "GVC-REPLAY-REPRODUCED") {
+	if strings.Contains(out, "GVC-REPLAY-REPRODUCED") || (race && strings.Contains(out, "WARNING: DATA RACE")) {
 		return true, out, nil
 	}
 	return false, out, fmt.Errorf("replay did not run to a verdict: %v", runErr)
